@@ -31,12 +31,12 @@ type cnode struct {
 	kids  []*cnode
 }
 
-func cU(n uint64) *cnode      { return &cnode{major: 0, w: minW(n), n: n} }
-func cNeg(n uint64) *cnode    { return &cnode{major: 1, w: minW(n), n: n} } // -1-n
-func cB(b []byte) *cnode      { return &cnode{major: 2, w: minW(uint64(len(b))), b: b} }
-func cT(s string) *cnode      { return &cnode{major: 3, w: minW(uint64(len(s))), b: []byte(s)} }
-func cA(k ...*cnode) *cnode   { return &cnode{major: 4, w: minW(uint64(len(k))), kids: k} }
-func cM(k ...*cnode) *cnode   { return &cnode{major: 5, w: minW(uint64(len(k) / 2)), kids: k} }
+func cU(n uint64) *cnode    { return &cnode{major: 0, w: minW(n), n: n} }
+func cNeg(n uint64) *cnode  { return &cnode{major: 1, w: minW(n), n: n} } // -1-n
+func cB(b []byte) *cnode    { return &cnode{major: 2, w: minW(uint64(len(b))), b: b} }
+func cT(s string) *cnode    { return &cnode{major: 3, w: minW(uint64(len(s))), b: []byte(s)} }
+func cA(k ...*cnode) *cnode { return &cnode{major: 4, w: minW(uint64(len(k))), kids: k} }
+func cM(k ...*cnode) *cnode { return &cnode{major: 5, w: minW(uint64(len(k) / 2)), kids: k} }
 func cTag(n uint64, k *cnode) *cnode {
 	return &cnode{major: 6, w: minW(n), n: n, kids: []*cnode{k}}
 }
